@@ -15,6 +15,11 @@ def prove(ctx):
 def correspond(ctx):
     _sched.run(ctx, PROP, GEN, RULE, 1500, 25000)
     _sched.restart_part(ctx, PROP, ctx.scale(300, 3000))
+    # containment needs the edge: a dependent whose upstream task was embedded anywhere in its parameters (direct, list, dict,
+    # nested configuration, pre/init task, task output) must have registered the dependency at submission, or a failure of the
+    # upstream job cannot cancel it (real dry-run submits, shared with C04's second sentence)
+    from . import c04
+    c04._deps_part(ctx, ctx.scale(60, 600))
 
 
 def search(ctx):
